@@ -210,3 +210,45 @@ def shared_state_obligations(src_root):
                                         "reason": "" if ok else why, "model": None, "path_notes": [why], "goal_size": 0, "replay": None,
                                         "clause": "mutable per-file / per-run state lives in the instance, not in the class"})
     return out
+
+
+# ---- completion-order iteration (O-obligations) -------------------------------------------------------------------------------------------------
+COMPLETION_ORDER = {"as_completed", "imap_unordered", "wait"}
+
+
+def completion_order_obligations(src_root):
+    """Results must not depend on thread scheduling.  The one construct that hands results over in COMPLETION order is iteration over
+    `concurrent.futures.as_completed` / `wait` (or `Pool.imap_unordered`): every use in the two packages is an obligation that fails unless
+    it is on the (empty) allow-list - the pool is to be consumed through `executor.map`, which yields in submission order (the contract of
+    BaseCodemod._apply records exactly that work list).  A coverage record states how many call sites of the thread-pool API were seen."""
+    out, pools = [], 0
+    for pkg in ("codemodder", "core_codemods"):
+        for dirpath, _, files in os.walk(os.path.join(src_root, pkg)):
+            if "/test" in dirpath or "scripts" in dirpath:
+                continue
+            for fn in sorted(files):
+                if not fn.endswith(".py"):
+                    continue
+                path = os.path.join(dirpath, fn)
+                rel = os.path.relpath(path, src_root)
+                try:
+                    tree = ast.parse(open(path, encoding="utf-8").read())
+                except SyntaxError:
+                    continue
+                for n in ast.walk(tree):
+                    if isinstance(n, ast.Call):
+                        name = n.func.attr if isinstance(n.func, ast.Attribute) else (n.func.id if isinstance(n.func, ast.Name) else None)
+                        if name in ("ThreadPoolExecutor", "ProcessPoolExecutor", "Pool"):
+                            pools += 1
+                        if name in COMPLETION_ORDER and not (isinstance(n.func, ast.Attribute) and isinstance(n.func.value, ast.Name) and n.func.value.id in ("time", "os")):
+                            why = (f"`{name}` at {rel}:{n.lineno} yields results in completion order, which depends on thread scheduling; what is built from "
+                                   "them (aggregates, report order) is then not a function of the project and the arguments")
+                            out.append({"id": f"O/completion-order {rel} [{name}]", "func": rel, "kind": "completion-order", "label": None, "status": "refuted",
+                                        "backend": "syntactic scan (ast)", "secs": 0.0, "reason": why, "model": None, "path_notes": [why], "goal_size": 0, "replay": None,
+                                        "clause": "worker results are consumed in submission order (executor.map), never in completion order"})
+    out.append({"id": "O/completion-order coverage [thread-pool call sites seen]", "func": "pyvc.framescan", "kind": "completion-order", "label": None,
+                "status": "discharged" if pools >= 1 else "undecided", "backend": "syntactic scan (ast)", "secs": 0.0,
+                "reason": "" if pools >= 1 else "unknown: no thread-pool construction was found: the scan is not seeing BaseCodemod._apply",
+                "model": None, "path_notes": [f"{pools} pool construction site(s)"], "goal_size": 0, "replay": None,
+                "clause": "vacuity guard: the scan sees the pool"})
+    return out
